@@ -92,6 +92,7 @@ ELEM = '_elem'      # _elem(iterable): an element of the iterable (loop variable
 EXC = '_exc'        # the exception bound by ``except X as e``
 ENTER = '_enter'    # _enter(ctx): value bound by ``with ctx as v``
 OBJ = '_obj'        # the object under construction inside an inlined __init__
+TYPED = '_typed'    # _typed('mod.Class', expr): expr of the caller, known to be an instance
 FACTS = '$facts'    # env key: atom text -> truth value established by guards on this path
 _PURE_BUILTINS = {'isinstance', 'len', 'type', 'callable', 'str', 'int', 'hasattr'}
 _PURE_METHODS = {'rsplit', 'split', 'strip', 'lower', 'upper', 'startswith', 'endswith', 'format',
@@ -168,7 +169,7 @@ class Enumerator:
             return set()
         if frame.depth >= self.max_depth:
             return res.raises
-        args = bind_args(callee, cexpr, getattr(res, 'self_expr', None))
+        args = bind_args(callee, cexpr, getattr(res, 'self_expr', None), cctx)
         if getattr(res, 'args_override', None) is not None:
             args = dict(res.args_override)
         if res.kind == 'class':
@@ -312,11 +313,17 @@ class _Frame:
             res = self.en.resolve(cexpr, self.fi, self.ctx, env) if self.en.resolve else None
             ev.callee = res
             raised2 = list(raised)
+            # at a call boundary kept (symbolic) locals are replaced by their definitions
+            defs = {k[5:]: v_ for k, v_ in env.items()
+                    if isinstance(k, str) and k.startswith('$def:') and v_ is not None}
+            cexpr_b = subst(cexpr, defs) if defs else cexpr
+            if res is not None and defs and getattr(res, 'self_expr', None) is not None:
+                res.self_expr = subst(res.self_expr, defs)
             if res is not None and getattr(res, 'raises', None):
                 rs = res.raises
                 if self.en.refine_raises and res.kind in ('repo', 'class') and \
                         len(res.funcs) == 1 and res.funcs[0][0] is not None:
-                    rs = self.en.refined_raises(res, cexpr, self)
+                    rs = self.en.refined_raises(res, cexpr_b, self)
                 for cl in sorted(rs):
                     if cl not in raised2:
                         raised2.append(cl)
@@ -330,7 +337,7 @@ class _Frame:
                 step(i + 1, repl, events2, raised2)
                 return
             callee, cctx = target
-            args = bind_args(callee, cexpr, getattr(res, 'self_expr', None))
+            args = bind_args(callee, cexpr_b, getattr(res, 'self_expr', None), cctx)
             if getattr(res, 'args_override', None) is not None:
                 args = dict(res.args_override)
             if res.kind == 'class':
@@ -718,6 +725,7 @@ class _Frame:
                     self.en.keep(target.id, value, self.fi):
                 # the name stays symbolic; its definition is recorded for the rule to check
                 env[target.id] = None
+                env['$def:' + target.id] = value
                 if events is not None:
                     events.append(Event('bind', expr=value, target=target, node=node,
                                         func=self.fi, depth=self.depth, ctx=self.ctx))
@@ -879,7 +887,7 @@ def _replace_by_id(raw, repl):
     return rec(raw)
 
 
-def bind_args(callee, call, self_expr=None):
+def bind_args(callee, call, self_expr=None, ctx=None):
     """Map callee parameters to the (substituted) argument expressions of call.
     Parameters without an argument get their default expression.  *args/**kwargs in the
     call make the binding partial (unbound parameters stay symbolic)."""
@@ -892,6 +900,13 @@ def bind_args(callee, call, self_expr=None):
     if is_method:
         if self_expr is not None and not (isinstance(self_expr, ast.Name) and
                                            self_expr.id == 'self'):
+            # the receiver is written in the caller's terms: tag it with the callee's class so
+            # that it is typed correctly inside the callee frame
+            if ctx is not None and not (isinstance(self_expr, ast.Call) and
+                                        isinstance(self_expr.func, ast.Name) and
+                                        self_expr.func.id == TYPED):
+                self_expr = ast.Call(ast.Name(TYPED, ast.Load()),
+                                     [ast.Constant(ctx.qualname), self_expr], [])
             out[params[0]] = self_expr
         params = params[1:]
     if any(isinstance(x, ast.Starred) for x in pos):
